@@ -869,8 +869,8 @@ _reduce("sum_dim", "aten_sum_dim_IntList", ["aten::sum.dim_IntList"],
         lambda t, x, d, k: t.sum(x, dim=d, keepdim=k), ("f32", "i64", "f16"), has_none=True)
 _reduce("mean_dim", "aten_mean_dim", ["aten::mean.dim"],
         lambda t, x, d, k: t.mean(x, dim=d, keepdim=k), ("f32",))
-_reduce("amax", "aten_amax", ["aten::amax"], lambda t, x, d, k: t.amax(x, dim=(() if d is None else d), keepdim=k), ("f32", "i64", "i32"), has_none=True)
-_reduce("amin", "aten_amin", ["aten::amin"], lambda t, x, d, k: t.amin(x, dim=(() if d is None else d), keepdim=k), ("f32", "i64", "i32"), has_none=True)
+_reduce("amax", "aten_amax", ["aten::amax"], lambda t, x, d, k: t.amax(x, dim=d, keepdim=k), ("f32", "i64", "i32"))
+_reduce("amin", "aten_amin", ["aten::amin"], lambda t, x, d, k: t.amin(x, dim=d, keepdim=k), ("f32", "i64", "i32"))
 _reduce("all_dims", "aten_all_dims", ["aten::all.dims"], lambda t, x, d, k: t.ops.aten.all.dims(x, d, k), ("f32", "i64", "bool"), has_none=True)
 _reduce("any_dims", "aten_any_dims", ["aten::any.dims"], lambda t, x, d, k: t.ops.aten.any.dims(x, d, k), ("f32", "i64", "bool"), has_none=True)
 
@@ -1570,6 +1570,286 @@ class _TopK:
         return t.topk(t.tensor(x), c["k"], c["dim"], c["largest"], c["sorted"])
 
 
+# ---- matmul family / max.dim / logsumexp / embedding / scatter / pixel shuffle ---------------------------
+
+def _mm_small(shape, i):
+    n = int(np.prod(shape)) if len(shape) else 1
+    return np.asarray(((np.arange(n) + i) % 5 - 2).astype(np.float32).reshape(shape))
+
+
+def _matmul_fam(name, fnname, overloads, gen, tfn):
+    class _M:
+        @staticmethod
+        def line(c):
+            return f"matmul {name} {sh(c['shape'])} {sh(c['other'])}"
+
+        @staticmethod
+        def call(c):
+            return [_mm_small(c["shape"], 0), _mm_small(c["other"], 1)], {}
+
+        @staticmethod
+        def torch(c, t):
+            return tfn(t, t.tensor(_mm_small(c["shape"], 0)), t.tensor(_mm_small(c["other"], 1)))
+    _M.gen = staticmethod(gen)
+    _M.fnname = fnname
+    return fam(name, "linalg", overloads)(_M)
+
+
+def _dimv(rng, zero_p=0.05):
+    return 0 if rng.random() < zero_p else rng.choice([1, 2, 3, 4])
+
+
+def _gen_mm(rng):
+    m, k, n = _dimv(rng), _dimv(rng), _dimv(rng)
+    k2 = k if rng.random() < 0.93 else k + 1
+    return dict(shape=[m, k], other=[k2, n], dtype="f32")
+
+
+def _gen_bmm(rng):
+    b, m, k, n = _dimv(rng), _dimv(rng), _dimv(rng), _dimv(rng)
+    return dict(shape=[b, m, k], other=[b if rng.random() < 0.95 else b + 1, k if rng.random() < 0.95 else k + 1, n], dtype="f32")
+
+
+def _gen_mv(rng):
+    # onnxruntime's MatMul refuses [0, K] x [K] (matmul_helper) and returns uninitialised memory for [M, 0] x [0]
+    # (runtime defects, not torch_lib's): no zero sizes when an operand is 1-D
+    m, k = _dimv(rng, 0.0), _dimv(rng, 0.0)
+    return dict(shape=[m, k], other=[k if rng.random() < 0.93 else k + 1], dtype="f32")
+
+
+def _gen_dot(rng):
+    k = _dimv(rng, 0.0)
+    return dict(shape=[k], other=[k if rng.random() < 0.93 else k + 1], dtype="f32")
+
+
+def _gen_matmul(rng):
+    k = _dimv(rng, 0.03)
+    ra, rb = rng.choice([1, 1, 2, 2, 3, 4]), rng.choice([1, 1, 2, 2, 3, 4])
+    nb = max(ra, rb) - 2
+    batch = [rng.choice([1, 2, 3]) for _ in range(max(nb, 0))]
+
+    def mk(r, is_a):
+        if r == 1:
+            return [k]
+        core = [_dimv(rng, 0.03), k] if is_a else [k, _dimv(rng, 0.03)]
+        bt = batch[len(batch) - (r - 2):] if r > 2 else []
+        bt = [1 if rng.random() < 0.25 else d for d in bt]
+        return bt + core
+    a, b = mk(ra, True), mk(rb, False)
+    if (ra == 1 or rb == 1) and 0 in a + b:
+        a, b = [d or 2 for d in a], [d or 2 for d in b]      # same onnxruntime limitation as in _gen_mv
+    u = rng.random()
+    if u < 0.04:
+        b[0 if len(b) == 1 else -2] += 1          # inner mismatch
+    elif u < 0.08 and len(a) > 2 and len(b) > 2:
+        a[0] = a[0] + 1 if a[0] != 1 else 4       # batch mismatch (maybe)
+    elif u < 0.10:
+        a = []                                     # 0-d operand
+    return dict(shape=a, other=b, dtype="f32")
+
+
+_matmul_fam("mm", "aten_mm", ["aten::mm"], _gen_mm, lambda t, a, b: t.mm(a, b))
+_matmul_fam("bmm", "aten_bmm", ["aten::bmm"], _gen_bmm, lambda t, a, b: t.bmm(a, b))
+_matmul_fam("mv", "aten_mv", ["aten::mv"], _gen_mv, lambda t, a, b: t.mv(a, b))
+_matmul_fam("dot", "aten_dot", ["aten::dot"], _gen_dot, lambda t, a, b: t.dot(a, b))
+_matmul_fam("matmul", "aten_matmul", ["aten::matmul"], _gen_matmul, lambda t, a, b: t.matmul(a, b))
+
+
+def _distinct(shape):
+    n = int(np.prod(shape)) if len(shape) else 1
+    return np.asarray(((np.arange(n) * 7919) % 1009).astype(np.float32).reshape(shape))
+
+
+def _maxmin_dim(name, fnname, overload, tfn):
+    class _MD:
+        @staticmethod
+        def gen(rng):
+            s = rshape(rng, 0, 3, zero_p=0.05)
+            return dict(shape=s, dtype="f32", dim=rdim(rng, len(s), 0.04), keep=rng.random() < 0.5)
+
+        @staticmethod
+        def line(c):
+            return f"maxmin_dim {name} {sh(c['shape'])} {c['dim']} {int(c['keep'])}"
+
+        @staticmethod
+        def call(c):
+            return [_distinct(c["shape"]), c["dim"], c["keep"]], {}
+
+        @staticmethod
+        def torch(c, t):
+            return tuple(tfn(t, t.tensor(_distinct(c["shape"])), c["dim"], c["keep"]))
+    _MD.fnname = fnname
+    return fam(name, "reduction", [overload], outkind="list")(_MD)
+
+
+_maxmin_dim("max_dim", "aten_max_dim", "aten::max.dim", lambda t, x, d, k: t.max(x, d, k))
+_maxmin_dim("min_dim", "aten_min_dim", "aten::min.dim", lambda t, x, d, k: t.min(x, d, k))
+
+
+@fam("logsumexp", "reduction", ["aten::logsumexp"])
+class _LogSumExp:
+    @staticmethod
+    def gen(rng):
+        s = rshape(rng, 0, 3, zero_p=0.04)
+        return dict(shape=s, dtype="f32", dims=_gen_dims(rng, len(s), allow_empty=False), keep=rng.random() < 0.5)
+
+    @staticmethod
+    def line(c):
+        return f"logsumexp {sh(c['shape'])} {ints(c['dims'])} {int(c['keep'])}"
+
+    @staticmethod
+    def call(c):
+        return [_mm_small(c["shape"], 0), list(c["dims"]), c["keep"]], {}
+
+    @staticmethod
+    def torch(c, t):
+        return t.logsumexp(t.tensor(_mm_small(c["shape"], 0)), c["dims"], c["keep"])
+
+
+@fam("logcumsumexp", "reduction", ["aten::logcumsumexp"])
+class _LogCumSumExp:
+    @staticmethod
+    def gen(rng):
+        s = rshape(rng, 0, 3, zero_p=0.0)
+        return dict(shape=s, dtype="f32", dim=rdim(rng, len(s), 0.04))
+
+    @staticmethod
+    def line(c):
+        return f"logcumsumexp {sh(c['shape'])} {c['dim']}"
+
+    @staticmethod
+    def call(c):
+        return [_mm_small(c["shape"], 0), c["dim"]], {}
+
+    @staticmethod
+    def torch(c, t):
+        return t.logcumsumexp(t.tensor(_mm_small(c["shape"], 0)), c["dim"])
+
+
+@fam("embedding", "slice", ["aten::embedding"])
+class _Embedding:
+    @staticmethod
+    def gen(rng):
+        v, d = rng.choice([1, 2, 3, 5]), rng.choice([0, 1, 2, 4]) if rng.random() < 0.2 else rng.choice([1, 2, 4])
+        ish = rshape(rng, 0, 3, zero_p=0.05)
+        n = int(np.prod(ish)) if ish else 1
+        return dict(shape=[v, d], dtype="f32", idx_shape=ish, idx=[rng.randrange(v) for _ in range(n)])
+
+    @staticmethod
+    def line(c):
+        return f"embedding {sh(c['shape'])} {sh(c['idx_shape'])}"
+
+    @staticmethod
+    def call(c):
+        return [_x(c), np.asarray(np.array(c["idx"], dtype=np.int64).reshape(c["idx_shape"]))], {}
+
+    @staticmethod
+    def torch(c, t):
+        return t.ops.aten.embedding(t.tensor(_x(c)), t.tensor(np.array(c["idx"], dtype=np.int64).reshape(c["idx_shape"])))
+
+
+def _scatter(name, fnname, overload, tfn):
+    class _S:
+        @staticmethod
+        def gen(rng):
+            s = rshape(rng, 1, 3, zero_p=0.0)
+            r = len(s)
+            d = rdim(rng, r, 0.03)
+            a = d % r if -r <= d < r else 0
+            if name == "scatter_src" and rng.random() < 0.08:
+                n = rng.choice([1, 2, 4])
+                return dict(shape=[n], dtype="f32", dim=rng.choice([0, -1]), idx_shape=[], idx=[rng.randrange(n)], src=[])
+            ish = [rng.randint(1, s[i]) for i in range(r)]
+            u = rng.random()
+            src = list(ish)
+            if u < 0.15:
+                j = rng.randrange(r)
+                src[j] += rng.choice([1, 2])          # torch allows src larger than index
+            elif u < 0.19:
+                j = (a + 1) % r
+                ish[j] = s[j] + 1                     # index larger than self off the axis
+                src = list(ish)
+            n = int(np.prod(ish))
+            # distinct targets along the axis (scatter with duplicates is nondeterministic in PyTorch)
+            idx = np.zeros(ish, dtype=np.int64)
+            for pos in np.ndindex(*ish):
+                idx[pos] = pos[a] % s[a]
+            if ish[a] <= s[a] and rng.random() < 0.5:
+                idx = (s[a] - 1 - idx)                # reversed
+            if rng.random() < 0.3:
+                idx = np.where(idx % 2 == 0, idx, idx - s[a]) if name != "scatter_neg" else idx
+            return dict(shape=s, dtype=rdtype(rng, ("f32", "i64")), dim=d, idx_shape=ish, idx=[int(v) for v in idx.reshape(-1)],
+                        src=src)
+
+        @staticmethod
+        def line(c):
+            return f"scatter {name} {sh(c['shape'])} {sh(c['idx_shape'])} {sh(c['src'])} {c['dim']}"
+
+        @staticmethod
+        def _idx(c):
+            return np.asarray(np.array(c["idx"], dtype=np.int64).reshape(c["idx_shape"]))
+
+        @staticmethod
+        def call(c):
+            return [_x(c), c["dim"], _S._idx(c), datai(c["src"], c["dtype"], 50)], {}
+
+        @staticmethod
+        def torch(c, t):
+            idx = _S._idx(c)
+            r = len(c["shape"])
+            d = c["shape"][c["dim"] % r] if -r <= c["dim"] < r else 1
+            return tfn(t, t.tensor(_x(c)), c["dim"], t.tensor(np.where(idx < 0, idx + d, idx)), t.tensor(datai(c["src"], c["dtype"], 50)))
+    _S.fnname = fnname
+    return fam(name, "slice", [overload])(_S)
+
+
+_scatter("scatter_src", "aten_scatter_src", "aten::scatter.src", lambda t, x, d, i, s: t.scatter(x, d, i, s))
+_scatter("scatter_add", "aten_scatter_add", "aten::scatter_add", lambda t, x, d, i, s: t.scatter_add(x, d, i, s))
+
+
+def _pixel(name, fnname, overload, tfn, up):
+    class _P:
+        @staticmethod
+        def gen(rng):
+            r = rng.choice([1, 2, 2, 3])
+            c, h, w = rng.choice([1, 2, 3]), rng.choice([1, 2, 3]), rng.choice([1, 2])
+            rank = rng.choice([3, 4, 4, 5, 5, 6])
+            batch = [rng.choice([1, 2, 3]) for _ in range(rank - 3)]
+            if up:
+                chw = [c * r * r, h, w]
+                if rng.random() < 0.06:
+                    chw[0] += 1
+            else:
+                chw = [c, h * r, w * r]
+                if rng.random() < 0.06:
+                    chw[rng.choice([1, 2])] += 1
+            if up and rng.random() < 0.05:
+                # (pixel_unshuffle: PyTorch's CPU kernel returns an empty input unchanged — the meta kernel and the graph agree
+                #  on [*, C·r², H/r, W/r] — so empty tensors are not generated for it)
+                (batch if batch and rng.random() < 0.5 else chw)[0] = 0
+            if rng.random() < 0.03:
+                batch, chw = [], chw[1:]                     # rank 2: PyTorch refuses
+            return dict(shape=batch + chw, dtype=("f32" if up else rdtype(rng, ("f32", "i64"))), factor=r)
+
+        @staticmethod
+        def line(c):
+            return f"{name} {sh(c['shape'])} {c['factor']}"
+
+        @staticmethod
+        def call(c):
+            return [_x(c), c["factor"]], {}
+
+        @staticmethod
+        def torch(c, t):
+            return tfn(t, t.tensor(_x(c)), c["factor"])
+    _P.fnname = fnname
+    return fam(name, "view", [overload])(_P)
+
+
+_pixel("pixel_shuffle", "aten_pixel_shuffle", "aten::pixel_shuffle", lambda t, x, r: t.pixel_shuffle(x, r), True)
+_pixel("pixel_unshuffle", "aten_pixel_unshuffle", "aten::pixel_unshuffle", lambda t, x, r: t.pixel_unshuffle(x, r), False)
+
+
 # ---- branch classification of the modelled trace-time code (printed into the evidence; a required counter
 # ---- that stays at zero in a run is an infrastructure failure, never a silent pass) -----------------
 
@@ -1913,6 +2193,22 @@ for _n in ("add", "sub", "add_scalar", "sub_scalar"):
     BRANCHES[_n] = [FAMILIES[_n]["branch"]]
 for _n in ("clamp", "clamp_tensor"):
     BRANCHES[_n] = [FAMILIES[_n]["branch"]]
+BRANCHES.update({
+    "matmul": [lambda c: "0d" if not c["shape"] or not c["other"] else f"{min(len(c['shape']), 3)}d-{min(len(c['other']), 3)}d"],
+    "max_dim": [lambda c: "rank0" if not c["shape"] else "reduce" + (":keep" if c["keep"] else "")],
+    "min_dim": [lambda c: "rank0" if not c["shape"] else "reduce" + (":keep" if c["keep"] else "")],
+    "logsumexp": [lambda c: "rank0" if not c["shape"] else "reduce"],
+    "logcumsumexp": [lambda c: "rank0" if not c["shape"] else "cumsum"],
+    "scatter_src": [lambda c: ("index0d" if not c["idx_shape"] else "general") + (":src-larger" if c["src"] != c["idx_shape"] else "")],
+    "scatter_add": [lambda c: "general" + (":src-larger" if c["src"] != c["idx_shape"] else "")],
+    "pixel_shuffle": [lambda c: "rank4" if len(c["shape"]) == 4 else "reshape-path"],
+    "pixel_unshuffle": [lambda c: "rank4" if len(c["shape"]) == 4 else "rank3" if len(c["shape"]) == 3 else "batched"],
+})
+REQUIRED += ["matmul:1d-1d", "matmul:1d-2d", "matmul:2d-1d", "matmul:2d-2d", "matmul:3d-3d", "matmul:3d-1d", "matmul:1d-3d",
+             "max_dim:rank0", "max_dim:reduce", "max_dim:reduce:keep", "min_dim:rank0", "min_dim:reduce",
+             "logsumexp:rank0", "logsumexp:reduce", "logcumsumexp:rank0", "logcumsumexp:cumsum",
+             "scatter_src:general", "scatter_src:index0d", "scatter_add:general",
+             "pixel_shuffle:rank4", "pixel_shuffle:reshape-path", "pixel_unshuffle:rank4", "pixel_unshuffle:batched"]
 REQUIRED += ["add:bool:identity", "add:bool:or", "add:alpha1", "add:alpha-mul", "sub:alpha-mul", "add_scalar:alpha-mul",
              "clamp:none", "clamp:lo", "clamp:hi", "clamp:lohi", "clamp_tensor:none", "clamp_tensor:lo", "clamp_tensor:hi",
              "clamp_tensor:lohi"]
